@@ -52,6 +52,7 @@ class HMCOperator(MCMCOperator, ParameterListener):
 
         if kwargs.get("find_reasonable_step_size", False):
             step_size = self._integrator.step_size
+            initial_tensors = [parameter.tensor.clone() for parameter in parameters]
             find_reasonable_step_size(
                 integrator,
                 parameters,
@@ -59,6 +60,10 @@ class HMCOperator(MCMCOperator, ParameterListener):
                 self.mass_matrix,
                 self.inverse_mass_matrix,
             )
+            # the search integrates the actual parameters: put them back where they
+            # were (initial values, or the values restored from a checkpoint)
+            for parameter, tensor in zip(parameters, initial_tensors):
+                parameter.tensor = tensor
             print(f"Step size: {self.id} = {self._integrator.step_size} ({step_size})")
 
         self._divergence_threshold = kwargs.get("divergence_threshold", 1000)
